@@ -66,8 +66,13 @@ class PropertyCheck:
         return ""
 
     # ---- helpers --------------------------------------------------------------
+    # thorough-tier multiplier for case counts (values of 2000 and more are counts in every check)
+    thorough_mult = 1
+
     def scale(self, quick, thorough):
-        return thorough if self.tier == "thorough" else quick
+        if self.tier != "thorough":
+            return quick
+        return thorough * self.thorough_mult if thorough >= 2000 else thorough
 
     def count(self, key, n=1):
         self.stats[key] = self.stats.get(key, 0) + n
